@@ -11,7 +11,7 @@ GenOnly == IOEnv.GEN = "1"
 E(text, code) == [text |-> text, code |-> code]
 Menu == { E(<<"a">>, <<1>>), E(<<"b">>, <<2>>), E(<<"a", "b">>, <<3>>), E(<<"b", "a">>, <<1, 2>>),
           E(<<"a", "a">>, <<65>>), E(<<"a", "b", "c">>, <<1, 1>>), E(<<"a">>, <<2, 1>>), E(<<"b">>, <<1>>),
-          E(<<"c", "a">>, <<255>>), E(<<"a", "b">>, <<2>>) }
+          E(<<"c", "a">>, <<255>>), E(<<"a", "b">>, <<2>>), E(<<"b">>, <<0, 65>>), E(<<"a">>, <<0>>) }
 \* tables as sequences: all orderings of 1..3 distinct menu entries would be 820; order matters only
 \* for duplicate texts/codes, so take subsets in a fixed order plus the reversed order
 Reverse(q) == [j \in 1..Len(q) |-> q[Len(q) + 1 - j]]
